@@ -809,9 +809,9 @@ def run(ctx):
     pool = mp.Pool(min(16, os.cpu_count() or 4))
     try:
         results = pool.map(fx_job, jobs, chunksize=1)
-        jobs = None
+        njobs, jobs = len(jobs), None
         if verbose:
-            print("[c02] harness phase %.1fs, %d jobs" % (time.time() - t0, len(jobs)), file=sys.stderr)
+            print("[c02] harness phase %.1fs, %d jobs" % (time.time() - t0, njobs), file=sys.stderr)
             for r in results:
                 print("[c02]   job %s: %.1fs, %d cmds (first %s), %d pts" % (r["fn"], r["t"][0], r["t"][2], r["t"][3], r["npts"]), file=sys.stderr)
         for r in results:
